@@ -271,6 +271,8 @@ def tree_json(case, taxa="taxa", batch=None):
             d["branch_lengths"] = gm.param("tree.blens", [0.0] * (2 * n - 3), dtype="torch.float64")
         else:
             d["branch_lengths"] = gm.param("tree.blens", case["branch_lengths"], dtype="torch.float64")
+            if len(case["newick"]) % 2:
+                d["keep_branch_lengths"] = False  # the switch written out with its default value: the given lengths are the lengths
         return d
     return {"id": "tree", "type": "TimeTreeModel", "newick": case["newick"], "taxa": taxa, "keep_branch_lengths": True,
             "internal_heights": gm.param("tree.heights", [1.0] * (n - 1), dtype="torch.float64")}
